@@ -71,7 +71,7 @@ static const double complex cplx_z0[MAXP] = {
     45 - 25 * I
 };
 static const char *z0_name[] = { "equal-50", "unequal-real", "complex",
-    "per-frequency" };
+    "per-frequency", "equal-49.97310468" };
 
 typedef struct cfg {
     int type;		/* VPT_S .. VPT_ZIN */
@@ -172,6 +172,9 @@ static void fill_cfg(cfg_t *c)
 	    case 0: c->z0[f][p] = 50.0; break;
 	    case 1: c->z0[f][p] = real_z0[p]; break;
 	    case 2: c->z0[f][p] = cplx_z0[p]; break;
+	    /* equal on all ports (Touchstone 1 can carry it) but needing
+	       nine digits: shows with which precision z0 is printed */
+	    case 4: c->z0[f][p] = 49.97310468; break;
 	    default: c->z0[f][p] = cplx_z0[p] * (1.0 + 0.25 * f); break;
 	    }
 	}
@@ -1104,9 +1107,11 @@ static void run(int tier, long idx, vf_result *r)
 	c.fprec = prec_list[vf_digit(&idx, NPREC)];
 	c.dprec = prec_list[vf_digit(&idx, NPREC)];
 	c.ports = 2;
-	c.z0set = 0;
 	c.nfreq = 3;
-	for (int mi = 0; mi < p3_mags(tier) && r->status == VF_OK; ++mi) {
+	for (int mi2 = 0; mi2 < 2 * p3_mags(tier) && r->status == VF_OK;
+		++mi2) {
+	    int mi = mi2 / 2;
+	    c.z0set = (mi2 & 1) ? 4 : 0;
 	    c.mag = mag_list[mi];
 	    /* Touchstone 1 re-normalises Z through S: only the unit
 	       magnitude is well conditioned there */
